@@ -13,21 +13,21 @@ Definition jv_pobs (o : pobs) : jv :=
   | PDone => JC "Done" []
   end.
 
-(* cache_info(): (cache, reminders, reminder_keys) per name *)
-Definition jv_wst (fw : bytes * wst) : jv :=
-  JL [ JB (fst fw); jv_dict (w_cache (snd fw));
-       JL (map (fun xv => JL [JB (fst (fst xv)); JZ (Z.of_nat (snd (fst xv))); JZ (snd xv)]) (w_rem (snd fw)));
-       JL (map (fun kl => JL [JB (fst kl); JL (map (fun i => JZ (Z.of_nat i)) (snd kl))]) (w_rk (snd fw))) ].
-Definition jv_state (s : state) : jv := JL (map jv_wst s).
+(* cache_info(): the three maps cache, reminders, reminder_keys *)
+Definition jv_rems (r : rems) : jv :=
+  JL (map (fun xv => JL [JB (fst (fst xv)); JZ (Z.of_nat (snd (fst xv))); JZ (snd xv)]) r).
+Definition jv_rks (rk : rks) : jv :=
+  JL (map (fun kl => JL [JB (fst kl); JL (map (fun i => JZ (Z.of_nat i)) (snd kl))]) rk).
+Definition jv_named {A} (j : A -> jv) (m : list (bytes * A)) : jv := JL (map (fun x => JL [JB (fst x); j (snd x)]) m).
+Definition jv_state (s : state) : jv :=
+  JL [ jv_named jv_dict (fst (fst (cache_info s))); jv_named jv_rems (snd (fst (cache_info s)));
+       jv_named jv_rks (snd (cache_info s)) ].
 
-Definition widths (ws : list (bytes * nat)) (f : bytes) : nat :=
-  match lookup f ws with Some w => w | None => 0%nat end.
-
-(* direct API: [model trace; spec trace (well-formed sequences only); final cache_info] *)
-Definition run_wn (ws : list (bytes * nat)) (ops : list wop) : jv :=
+(* direct API: [model trace; total spec trace (sequences with unique keys, any widths); final cache_info] *)
+Definition run_wn (ops : list wop) : jv :=
   JL [ JL (map (jv_outcome jv_wobs) (wtrace [] ops));
-       (if forallb (wop_ok (widths ws)) ops
-        then JL (map (fun o => jv_outcome jv_wobs (Val o)) (spec_wtrace [] ops)) else jnone);
+       (if forallb keys_ok ops
+        then JL (map (jv_outcome jv_wobs) (spec_wtrace_total [] ops)) else jnone);
        jv_outcome jv_state (wexec [] ops) ].
 
 (* public functions: [model trace; spec trace] *)
@@ -36,10 +36,14 @@ Definition run_pub (legacy : bool) (ops : list pop) : jv :=
        (if forallb pop_ok ops
         then JL (map (fun o => jv_outcome jv_pobs (Val o)) (spec_ptrace [] ops)) else jnone) ].
 
-(* two-thread schedule: [model answers; demanded answers (kernel order) or none; lock_ok] *)
-Definition jv_tagged (a : bool * pobs) : jv := JL [jbool (fst a); jv_pobs (snd a)].
-Definition run_race (sched : list cstep) : jv :=
-  JL [ JL (map (jv_outcome jv_tagged) (ctrace [] (None, None) sched));
-       (if sched_ok (None, None) sched
-        then JL (map (fun a => jv_outcome jv_tagged (Val a)) (spec_ctrace [] (None, None) sched)) else jnone);
-       jbool (lock_ok (None, None) sched) ].
+(* thread schedule: [model answers; answers of the sequential specification on the linearisation;
+   read-time demanded answers; lock_ok]   (the two specifications only for well-formed schedules) *)
+Definition jv_tagged (a : nat * pobs) : jv := JL [JZ (Z.of_nat (fst a)); jv_pobs (snd a)].
+Definition run_sched (sched : list cstep) : jv :=
+  let L := lin idle sched in
+  JL [ JL (map (jv_outcome jv_tagged) (ctrace [] idle sched));
+       (if sched_ok idle sched
+        then JL (map (fun a => jv_outcome jv_tagged (Val a)) (combine (map fst L) (spec_ptrace [] (map snd L)))) else jnone);
+       (if sched_ok idle sched
+        then JL (map (fun a => jv_outcome jv_tagged (Val a)) (spec_ctrace [] idle sched)) else jnone);
+       jbool (lock_ok None sched) ].
